@@ -118,6 +118,27 @@ def gen_case(rng, kind):
         stmts.insert(rng.randrange(len(stmts) + 1), around("pre<W>"))
         stmts.append(" " * rng.randint(0, 4) + "<W> = " + " ".join(filler_items(rng, rng.randint(0, 2), True) and ["x |"] or []) + " plantedone" + sep(rng, False) + "plantedtwo;")
         expect = [("error", "Adjacent literals in expression used in a subword context", "plantedone"), ("error", None, "plantedtwo")]
+    elif kind == "subword-spaces-trace":
+        # the mistake sits behind a chain of definitions; other nonterminals defined as a single command or literal are
+        # referred to earlier (same and earlier call variants).  Every located error must be about the mistake: the two
+        # literals and each reference on the way to them — nothing else.
+        easy = [("FMT", "{{{ cmd --list-formats }}}"), ("LVL", "quiet"), ("TGT", "{{{ echo t1; echo t2 }}}")]
+        rng.shuffle(easy)
+        used = easy[:rng.randint(1, 3)]
+        for nm, _ in used[1:]:
+            stmts.append(f"cmd{sep(rng, False)}{rng.choice(PLAIN)}{sep(rng, False)}<{nm}>;")
+        depth = rng.randint(1, 3)
+        names = [f"PLANTEDW{j}" for j in range(depth)]
+        stmts.append(f"cmd{sep(rng, False)}--format{sep(rng, False)}<{used[0][0]}>{sep(rng, False)}--color=<{names[0]}>;")
+        for nm, body in used:
+            stmts.append(" " * rng.randint(0, 3) + f"<{nm}> ::= {body};")
+        for j in range(depth - 1):
+            stmts.append(" " * rng.randint(0, 3) + f"<{names[j]}> = <{names[j + 1]}> | other{j};")
+        stmts.append(" " * rng.randint(0, 3) + f"<{names[-1]}> ::= plantedone{sep(rng, False)}plantedtwo | auto;")
+        expect = [("error", "Adjacent literals in expression used in a subword context", "plantedone"), ("error", None, "plantedtwo")]
+        # (definitions are expanded before this check runs, so only the reference in the call variant is on the way)
+        expect.append(("error", "Referenced in a subword context at", "<" + names[0] + ">"))
+        expect.append(("exact", "error", None))
     elif kind == "parse-error":
         stmts.append("cmd z;")
         bad = rng.choice(["plantedstmt ) oops;", "plantedstmt ( a | ;", "plantedstmt a \\q;", "plantedstmt [ x ;",
@@ -138,7 +159,8 @@ def gen_case(rng, kind):
     return text, expect, shells
 
 
-KINDS = ["undefined", "undefined-in-word", "unused", "unused-spec", "duplicate", "unknown-shell", "varying-name", "subword-spaces", "parse-error"]
+KINDS = ["undefined", "undefined-in-word", "unused", "unused-spec", "duplicate", "unknown-shell", "varying-name", "subword-spaces", "parse-error",
+         "subword-spaces-trace"]
 
 
 def locate(text, marker):
@@ -186,6 +208,21 @@ def run_batch(ctx, cases, workdir):
         ctx.evaluations += 1
         ctx.count("kind:" + kind)
         diags = [m.groupdict() for m in DIAG_RE.finditer(err)]
+        exact = [e[1] for e in expect if e[0] == "exact"]
+        expect = [e for e in expect if e[0] != "exact"]
+        for want_sev in exact:
+            allowed = set()
+            for sev, title, marker in expect:
+                line, col, _ = locate(text, marker)
+                allowed.add((sev, title, line, col))
+            for d in diags:
+                if d["sev"] == want_sev and (d["sev"], d["title"] or None, int(d["line"]), int(d["col"])) not in allowed:
+                    ctx.violation(f"unexpected-located-diagnostic:{kind}", {
+                        "grammar": text, "grammar_hex": core.hexs(text), "shell": sh, "kind": kind,
+                        "diagnostic": f"{d['sev']}: {d['title']}", "expected": "none", "unexpected": f"{d['line']}:{d['col']}",
+                        "stderr": err[:1500], "exit": rc,
+                        "what": f"`{d['title']}` is reported at {d['line']}:{d['col']}, a construct the mistake has nothing to do with"})
+                    break
         for sev, title, marker in expect:
             line, col, src = locate(text, marker)
             if not src.encode("utf-8")[:col - 1].isascii():
@@ -239,6 +276,15 @@ def replay(ctx, proof, path):
     workdir = tempfile.mkdtemp(prefix="c13r-", dir=ctx.workdir)
     rc, err = run_bin((rp["shell"], rp["grammar"], os.path.join(workdir, "r.usage")))
     os.rmdir(workdir)
+    if rp.get("expected") == "none":
+        line, col = rp["unexpected"].split(":")
+        sev, title = rp["diagnostic"].split(": ", 1)
+        bad = [d for d in (m.groupdict() for m in DIAG_RE.finditer(err)) if d["sev"] == sev and (d["title"] or "None") == title and d["line"] == line and d["col"] == col]
+        if bad:
+            print(f"VIOLATION property={ctx.prop} replay={path}")
+            return 1
+        print("replay: property holds on this case now")
+        return 0
     line, col = rp["expected"].split(":")
     sev, title = rp["diagnostic"].split(": ", 1)
     title = None if title == "None" else title
